@@ -18,17 +18,22 @@ MatchRead(sr, lr) ==
             /\ SeqToSet(lr[i].world) = sr[i].world
             /\ Len(lr[i].world) = Cardinality(sr[i].world)
        ELSE sr[i] = lr[i]
+\* Property level (C15): result, what the typed reader reports and the absence of warnings must be as
+\* specified; which low-level chunks carry it (key frame or delta) is the detailed level: a difference
+\* there alone is accepted and reported as drift.
 Match(s, o) ==
   /\ DOMAIN s = DOMAIN o
   /\ s.r = o.r
-  /\ "file" \in DOMAIN s => (s.file = o.file /\ MatchRead(s.read, o.read) /\ s.w = SeqToSet(o.w))
+  /\ "file" \in DOMAIN s =>
+        /\ MatchRead(s.read, o.read) /\ s.w = SeqToSet(o.w)
+        /\ (IF s.file = o.file THEN TRUE ELSE PrintT(<<"TRACE DRIFT at event", l, Rec[l]>>))
 
 TraceInit == Init /\ l = 1
 TraceNext ==
   /\ l <= Len(Rec)
   /\ Step(ActOf(Rec[l].act))
-  /\ Match(out', Rec[l].out)
   /\ l' = l + 1
+  /\ Match(out', Rec[l].out)
 TraceSpec == TraceInit /\ [][TraceNext]_tvars
 
 TraceAccepted ==
